@@ -134,7 +134,15 @@ func foldEnv(c *Ctx, prop, caseID, profName string, e *sim.Env, nontrivialKeys [
 		if v.Prop != prop {
 			continue
 		}
-		c.Violation(v.Prop, v.Sig, v.Msg, caseID, histReplay{Profile: profName, Log: e.Log})
+		// the history up to and including the violating call is enough to replay it
+		log := e.Log
+		for i, le := range log {
+			if le.Seq > v.Seq && v.Seq > 0 {
+				log = log[:i]
+				break
+			}
+		}
+		c.Violation(v.Prop, v.Sig, v.Msg, caseID, histReplay{Profile: profName, Log: log})
 	}
 }
 
@@ -149,6 +157,9 @@ func replayHistory(prop string) func(c *Ctx, raw json.RawMessage) {
 		idx.Reset()
 		e := sim.NewEnv(idx)
 		e.Monitors = monitorsFor(prop, c.Seed, idx)
+		if osGetenv("VCHECK_TRACE") != "" {
+			e.Monitors = append([]sim.Monitor{mon.Trace{}}, e.Monitors...)
+		}
 		e.Replay(dbm.NewMemDB(), hr.Log)
 		foldEnv(c, prop, "replay", hr.Profile, e, nil)
 	}
